@@ -10,10 +10,11 @@ namespace Otel.C01
 /-- labels that are not new API calls (`accept`, `endUnsampled`, `ffCall`, `sdCall`, `sdCallLate`) nor context
 cancellation -/
 def Lbl.internal : Lbl → Bool
-  | .accept _ | .endUnsampled _ | .ffCall _ | .sdCall | .sdCallLate _ | .ffCancel _ => false
+  | .accept _ | .endUnsampled _ | .ffCall _ | .sdCall | .sdCallLate _ | .ffCancel _ | .sdTimeout => false
   | _ => true
 
-theorem shutdown_progress_of_inv (s : St) (hc : InvC s) (hsd : s.sd ≠ .none) (hret : s.sdRetOk = false) :
+theorem shutdown_progress_of_inv (s : St) (hc : InvC s) (hsd : s.sd ≠ .none) (hret : s.sdRetOk = false)
+    (hrete : s.sdRetErr = false) :
     ∃ l, l.internal = true ∧ (step s l).isSome = true := by
   -- the exporter call in progress can always return
   cases hb : s.busy with
@@ -26,7 +27,7 @@ theorem shutdown_progress_of_inv (s : St) (hc : InvC s) (hsd : s.sd ≠ .none) (
     | none => exact absurd hsdv hsd
     | called => exact ⟨.sdStore, rfl, by simp [step, hsdv]⟩
     | stored => exact ⟨.sdClose, rfl, by simp [step, hsdv]⟩
-    | shut => exact ⟨.sdReturnOk, rfl, by simp [step, hsdv, hret]⟩
+    | shut => exact ⟨.sdReturnOk, rfl, by simp [step, hsdv, hret, hrete]⟩
     | closed =>
       have hstop : s.stopClosed = true := hc.sdStop (Or.inl hsdv)
       cases hh : s.hand with
@@ -54,12 +55,56 @@ theorem shutdown_progress_of_inv (s : St) (hc : InvC s) (hsd : s.sd ≠ .none) (
 call is still in progress (and can make progress by the lemma above) or `stopOnce` is done and the call returns -/
 theorem shutdown_progress_late (s : St) (hc : InvC s) (hl : InvL s) (c : SD) (hmem : c ∈ s.sds)
     (hret : c.ret = false) : ∃ l, l.internal = true ∧ (step s l).isSome = true := by
-  cases hr : s.sdRetOk with
-  | false => exact shutdown_progress_of_inv s hc (hl.called (List.ne_nil_of_mem hmem)) hr
-  | true =>
-    refine ⟨.sdReturnLate c.cid, rfl, ?_⟩
-    simp only [step, hr, List.any_eq_true, decide_eq_true_eq, true_and]
-    rw [if_pos ⟨c, hmem, rfl, hret⟩]
+  have late : (s.sdRetOk = true ∨ s.sdRetErr = true) → (step s (.sdReturnLate c.cid)).isSome = true := by
+    intro h
+    simp only [step, List.any_eq_true, decide_eq_true_eq]
+    rw [if_pos ⟨h, c, hmem, rfl, hret⟩]
     rfl
+  cases hr : s.sdRetOk with
+  | false =>
+    cases hre : s.sdRetErr with
+    | false => exact shutdown_progress_of_inv s hc (hl.called (List.ne_nil_of_mem hmem)) hr hre
+    | true => exact ⟨.sdReturnLate c.cid, rfl, late (Or.inr hre)⟩
+  | true => exact ⟨.sdReturnLate c.cid, rfl, late (Or.inl hr)⟩
+
+/-- the shutdown goroutine (close(stopCh); stopWait.Wait(); exporter.Shutdown; close(wait)) never waits for something
+that cannot happen, whether or not the Shutdown call that started it is still waiting for it — in particular after that
+call has returned its context's error (`sdTimeout`): while the exporter has not been shut down some internal step is
+enabled -/
+theorem drain_progress_of_inv (s : St) (hc : InvC s) (hsd : s.sd ≠ .none) (hshut : s.sd ≠ .shut) :
+    ∃ l, l.internal = true ∧ l ≠ .sdReturnOk ∧ l ≠ .sdTimeout ∧ (step s l).isSome = true := by
+  cases hb : s.busy with
+  | some who =>
+    cases who with
+    | worker => exact ⟨.exportEnd true, rfl, by simp, by simp, by simp [step, hb]⟩
+    | ff fid => exact ⟨.ffExportEndOk fid, rfl, by simp, by simp, by simp [step, hb]⟩
+  | none =>
+    cases hsdv : s.sd with
+    | none => exact absurd hsdv hsd
+    | called => exact ⟨.sdStore, rfl, by simp, by simp, by simp [step, hsdv]⟩
+    | stored => exact ⟨.sdClose, rfl, by simp, by simp, by simp [step, hsdv]⟩
+    | shut => exact absurd hsdv hshut
+    | closed =>
+      have hstop : s.stopClosed = true := hc.sdStop (Or.inl hsdv)
+      cases hh : s.hand with
+      | some id =>
+        have hw := hc.handPhase (by simp [hh])
+        rcases hw with hw | hw
+        · exact ⟨.wAppend, rfl, by simp, by simp, by simp [step, hh, hb, hw]⟩
+        · exact ⟨.wAppend, rfl, by simp, by simp, by simp [step, hh, hb, hw]⟩
+      | none =>
+        cases hw : s.w with
+        | run => exact ⟨.wStop, rfl, by simp, by simp, by simp [step, hw, hh, hstop]⟩
+        | pend => exact ⟨.wExportStart, rfl, by simp, by simp, by simp only [step, hw, hb]; split <;> (try split) <;> simp_all⟩
+        | dpend => exact ⟨.wExportStart, rfl, by simp, by simp, by simp only [step, hw, hb]; split <;> (try split) <;> simp_all⟩
+        | final => exact ⟨.wExportStart, rfl, by simp, by simp, by simp only [step, hw, hb]; split <;> (try split) <;> simp_all⟩
+        | exited => exact ⟨.sdExporterShutdown, rfl, by simp, by simp, by simp [step, hsdv, hw]⟩
+        | drain =>
+          cases hq : s.queue with
+          | nil => exact ⟨.wDrainEmpty, rfl, by simp, by simp, by simp [step, hw, hh, hq]⟩
+          | cons x q =>
+            cases x with
+            | span id => exact ⟨.wRecv, rfl, by simp, by simp, by simp [step, hw, hh, hq]⟩
+            | marker fid => exact ⟨.wRecv, rfl, by simp, by simp, by simp [step, hw, hh, hq]⟩
 
 end Otel.C01
